@@ -65,6 +65,17 @@ def run(report: Report, tier, seed):
     report.bounded.append(Bounded(function="pyteal.compiler.sort.sortBlocks", contract="duplicate-free enumeration of the reachable blocks ending with `end`; TealInternalError iff end unreachable",
                                   bound=f"all graphs of <= {nmax} blocks x every terminal end block", cases=sc, distinct_nontrivial=sc, failures=len(sf)))
     fails = bounded(report, tier, seed)
+    from . import shared_objs
+    from concurrent.futures import ProcessPoolExecutor
+    sj = shared_objs.jobs(tier)
+    with ProcessPoolExecutor(max_workers=16) as ex:
+        sr = list(ex.map(shared_objs.case, sj, chunksize=8))
+    sdiff = [r for r in sr if r["differs"]]
+    report.bounded.append(Bounded(function="compileTeal on programs that use one Expr object at several places", contract="same TEAL as the program built from separately constructed equal objects",
+                                  bound=f"{len(shared_objs.TEMPLATES)} sharing templates x {len(shared_objs.STMTS)} statements x versions x slot optimiser on/off",
+                                  cases=sum(r["ran"] for r in sr), distinct_nontrivial=len(sj), failures=len(sdiff)))
+    for b in sdiff[:2]:
+        report.violation(Violation(key=f"shared:{b['job'][0]}:{b['job'][1]}", what=f"sharing template {b['job']}: {b['differs']}"[:400], replay={"shared": b["job"]}, confirmed_native=True))
 
     def directed(obs):
         """native search aimed at the construct whose fragment obligation failed (same oracle as the sweep)"""
@@ -103,6 +114,11 @@ def run(report: Report, tier, seed):
 
 def replay(data):
     r = data.get("replay") or {}
+    if r.get("shared"):
+        from . import shared_objs
+        out = shared_objs.case(tuple(r["shared"]))
+        print(out)
+        return 1 if out["differs"] else 0
     nat = r.get("native") or r
     spec = (nat.get("input") or {}).get("spec")
     if not spec:
